@@ -32,9 +32,11 @@ KFn(i)  == [k |-> "fn", s |-> "", n |-> i]
 
 (* ---- compiler records ------------------------------------------------------------------------ *)
 Local(name, depth) == [name |-> name, depth |-> depth, cap |-> FALSE]
-NewC(name, script) ==
-    [name |-> name, script |-> script, code |-> <<>>, lines |-> <<>>, consts |-> <<>>, arity |-> 1,
-     locals |-> <<Local(IF script THEN "self" ELSE "", 0)>>, upv |-> <<>>, depth |-> 0, lam |-> 0, intry |-> FALSE, loops |-> <<>>]
+(* kind: script | fn | method | static | init  (FunctionKind); slot 0 is named self / Self / "" accordingly *)
+NewC(name, kind) ==
+    [name |-> name, kind |-> kind, script |-> kind = "script", code |-> <<>>, lines |-> <<>>, consts |-> <<>>, arity |-> 1,
+     locals |-> <<Local(IF kind = "static" THEN "Self" ELSE IF kind # "fn" THEN "self" ELSE "", 0)>>, upv |-> <<>>, depth |-> 0, lam |-> 0,
+     intry |-> FALSE, loops |-> <<>>]
 
 Cur(S) == S.cs[Len(S.cs)]
 SetCur(S, c) == [S EXCEPT !.cs[Len(S.cs)] = c]
@@ -125,10 +127,11 @@ EmitVarOp(S, n, a, ln) == IF n \in {"GetLocal", "SetLocal", "GetUpvalue", "SetUp
 
 (* ---- functions --------------------------------------------------------------------------------------- *)
 EmitReturn(S, ln) ==
-    LET S1 == EmitOp(S, "Nil", ln)
+    LET S1 == IF Cur(S).kind = "init" THEN Emit(S, <<Op("GetLocal"), 0>>, ln) ELSE EmitOp(S, "Nil", ln)
         S2 == IF Cur(S1).intry THEN EmitOp(S1, "JumpFinally", ln) ELSE S1
     IN EmitOp(S2, "Return", ln)
-PushCompiler(S, name) == [S EXCEPT !.cs = Append(@, [NewC(name, FALSE) EXCEPT !.depth = 1])]
+PushCompilerK(S, name, kind) == [S EXCEPT !.cs = Append(@, [NewC(name, kind) EXCEPT !.depth = 1])]
+PushCompiler(S, name) == PushCompilerK(S, name, "fn")
 RECURSIVE Params(_, _, _)
 Params(S, ps, i) ==
     IF i > Len(ps) THEN S
@@ -190,7 +193,22 @@ CE(S, e, ln) ==
                                   ELSE EmitConstOp(S, "Constant", KNum(e.v.v), ln)
               [] e.v.k = "str" -> EmitConstOp(S, "Constant", KStr(e.v.v), ln)
               [] OTHER -> Unsup(S))
-      [] e.k = "var" -> LET v == NamedVar(S, e.x) IN EmitVarOp(v.s, v.get, v.a, ln)
+      [] e.k = "var" ->
+           LET S0 == IF e.x = "self" /\ (S.classes = <<>> \/ Cur(S).kind = "static") THEN Err(S) ELSE S
+               v == NamedVar(S0, e.x)
+           IN EmitVarOp(v.s, v.get, v.a, ln)
+      [] e.k = "Self" ->
+           LET v == NamedVar(IF S.classes = <<>> THEN Err(S) ELSE S, "Self") IN EmitOp(EmitVarOp(v.s, v.get, v.a, ln), "GetClass", ln)
+      [] e.k \in {"superinv", "superget"} ->
+           LET S0 == IF S.classes = <<>> \/ ~S.classes[Len(S.classes)] THEN Err(S) ELSE S
+               k == AddConst(S0, KStr(e.m))
+               recv == NamedVar(k.s, Cur(k.s).locals[1].name)
+               S1 == EmitVarOp(recv.s, recv.get, recv.a, ln)
+               S2 == IF e.k = "superinv" THEN CEs(S1, e.args, 1, ln) ELSE S1
+               sup == NamedVar(S2, "super")
+               S3 == EmitVarOp(sup.s, sup.get, sup.a, ln)
+           IN IF e.k = "superinv" THEN Emit(S3, <<Op("SuperInvoke")>> \o U16(k.i) \o <<Len(e.args)>>, ln)
+              ELSE Emit(S3, <<Op("GetSuper")>> \o U16(k.i), ln)
       [] e.k = "bin" -> Emit(CE(CE(S, e.l, ln), e.r, ln), BinOps[e.op], ln)
       [] e.k = "un" -> EmitOp(CE(S, e.e, ln), UnOpName(e.op), ln)
       [] e.k = "and" ->
@@ -341,7 +359,7 @@ CStmt(S, p, i) ==
       [] tk.t = "return" ->
            LET S0 == IF Cur(S).script THEN Err(S) ELSE S IN
            IF IsNilLit(tk.e) THEN [s |-> EmitReturn(S0, ln), next |-> i + 1]
-           ELSE LET S1 == CE(S0, tk.e, ln)
+           ELSE LET S1 == CE(IF Cur(S0).kind = "init" THEN Err(S0) ELSE S0, tk.e, ln)
                     S2 == IF Cur(S1).intry THEN EmitOp(S1, "JumpFinally", ln) ELSE S1
                 IN [s |-> EmitOp(S2, "Return", ln), next |-> i + 1]
       [] tk.t = "throw" -> [s |-> EmitOp(CE(S, tk.e, ln), "Throw", ln), next |-> i + 1]
@@ -373,11 +391,60 @@ CStmt(S, p, i) ==
                S1 == Params(PushCompiler(k.s, tk.x), tk.ps, 1)
                S2 == FinishFunction(CS(S1, p, i + 1, e - 1), e)
            IN [s |-> IF global THEN Emit(S2, <<Op("DefineGlobal")>> \o U16(k.i), e) ELSE S2, next |-> e + 1]
+      [] tk.t = "import" ->
+           LET S0 == IF tk.p = "main" THEN Err(S) ELSE S
+               kp == AddConst(S0, KStr(tk.p))
+               S1 == IF Cur(kp.s).depth > 0 THEN DeclareLocal(kp.s, tk.x) ELSE kp.s
+               S2 == EmitOp(Emit(S1, <<Op("StartImport")>> \o U16(kp.i), ln), "FinishImport", ln)
+               kn == AddConst(S2, KStr(tk.x))
+           IN [s |-> IF Cur(kn.s).depth > 0 THEN MarkInit(kn.s) ELSE Emit(kn.s, <<Op("DefineGlobal")>> \o U16(kn.i), ln), next |-> i + 1]
+      [] tk.t = "class" ->
+           LET hasSup == tk.sup.k = "var"
+               kn == AddConst(S, KStr(tk.x))
+               global == Cur(S).depth = 0
+               S1 == IF global THEN kn.s ELSE DeclareLocal(kn.s, tk.x)
+               S2 == Emit(S1, <<Op("DeclareClass")>> \o U16(kn.i), ln)
+               S3 == IF global THEN Emit(S2, <<Op("DefineGlobal")>> \o U16(kn.i), ln) ELSE MarkInit(S2)
+               S4 == [S3 EXCEPT !.classes = Append(@, FALSE)]
+               S5 == IF hasSup
+                     THEN LET sv == NamedVar(S4, tk.sup.x)
+                              A1 == EmitVarOp(sv.s, sv.get, sv.a, ln)
+                              A2 == IF tk.sup.x = tk.x THEN Err(A1) ELSE A1
+                              A3 == BeginScope(A2)
+                              A4 == MarkInit(SetCur(A3, [Cur(A3) EXCEPT !.locals = Append(@, Local("super", -1))]))
+                              cv == NamedVar(A4, tk.x)
+                              A5 == EmitOp(EmitVarOp(cv.s, cv.get, cv.a, ln), "Inherit", ln)
+                          IN [A5 EXCEPT !.classes[Len(A5.classes)] = TRUE]
+                     ELSE S4
+               rv == NamedVar(S5, tk.x)                        \* resolve_variable(name): the operand of the final Set
+               gv == NamedVar(rv.s, tk.x)
+               S6 == EmitVarOp(gv.s, gv.get, gv.a, ln)
+               S7 == IF tk.ctor # ""
+                     THEN LET kc == AddConst(S6, KStr(tk.ctor))
+                              B1 == Emit(PushCompilerK(kc.s, tk.ctor, "init"), <<Op("Construct"), 0>>, ln)
+                              B2 == EmitReturn(B1, ln)
+                              c == Cur(B2)
+                              fn == [name |-> c.name, arity |-> c.arity, upv |-> Len(c.upv), code |-> c.code, lines |-> c.lines, consts |-> c.consts]
+                              B3 == [B2 EXCEPT !.cs = SubSeq(@, 1, Len(@) - 1), !.fns = Append(@, fn)]
+                              kf == AddConst(B3, KFn(Len(B3.fns)))
+                          IN Emit(Emit(kf.s, <<Op("Closure")>> \o U16(kf.i), ln), <<Op("StaticMethod")>> \o U16(kc.i), ln)
+                     ELSE S6
+               S8 == CS(S7, p, i + 1, e - 1)                   \* the methods
+               S9 == EmitOp(EmitVarOp(EmitOp(S8, "DefineClass", e), rv.set, rv.a, e), "Pop", e)
+               S10 == IF hasSup THEN EndScope(S9, e) ELSE S9
+           IN [s |-> [S10 EXCEPT !.classes = SubSeq(@, 1, Len(@) - 1)], next |-> e + 1]
+      [] tk.t = "method" ->
+           LET kind == IF tk.kind = "ctor" THEN "init" ELSE IF tk.kind = "static" THEN "static" ELSE "method"
+               kn == AddConst(S, KStr(tk.x))
+               S1 == Params(PushCompilerK(kn.s, tk.x, kind), tk.ps, 1)
+               S2 == IF kind = "init" THEN Emit(S1, <<Op("Construct"), Cur(S1).arity - 1>>, ln) ELSE S1
+               S3 == FinishFunction(CS(S2, p, i + 1, e - 1), e)
+           IN [s |-> Emit(S3, <<Op(IF kind = "method" THEN "Method" ELSE "StaticMethod")>> \o U16(kn.i), e), next |-> e + 1]
       [] OTHER -> [s |-> Unsup(S), next |-> IF tk.t \in Openers /\ e # 0 THEN e + 1 ELSE i + 1]
 
 (* ---- whole programs ------------------------------------------------------------------------------------------- *)
 Compile(p) ==
-    LET S0 == [cs |-> <<NewC("", TRUE)>>, fns |-> <<>>, err |-> FALSE, unsup |-> FALSE]
+    LET S0 == [cs |-> <<NewC("", "script")>>, fns |-> <<>>, err |-> FALSE, unsup |-> FALSE, classes |-> <<>>]
         S1 == CS(S0, p, 1, Len(p))
         S2 == EmitReturn(S1, Len(p) + 1)                       \* at the end-of-file token
         c == Cur(S2)
